@@ -154,4 +154,139 @@ theorem foldParams_wf (style : GNStyle) (edd : Bool) (scans : List (List Str)) (
         · cases h
         · exact ih _ _ (WFkeys_insert _ _ _ hwf) h
 
+/-! ### the scanner never builds an empty unit -/
+
+/-- every unit holds at least one line -/
+def AllNE (st : List (List Str)) : Prop := ∀ e ∈ st, e ≠ []
+
+theorem AllNE_nil : AllNE [] := by intro e he; cases he
+
+theorem AllNE_append {a b : List (List Str)} (ha : AllNE a) (hb : AllNE b) : AllNE (a ++ b) := by
+  intro e he
+  rcases List.mem_append.mp he with h | h
+  · exact ha e h
+  · exact hb e h
+
+theorem AllNE_take {a : List (List Str)} (n : Nat) (ha : AllNE a) : AllNE (a.take n) :=
+  fun e he => ha e (List.mem_of_mem_take he)
+
+theorem appendLast_ne (st : List (List Str)) (l : Str) (h : AllNE st) : AllNE (appendLast st l) := by
+  induction st with
+  | nil => simpa [appendLast] using h
+  | cons x xs ih =>
+    cases xs with
+    | nil =>
+      intro e he
+      simp only [appendLast, List.mem_singleton] at he
+      subst he
+      simp
+    | cons y ys =>
+      intro e he
+      simp only [appendLast, List.mem_cons] at he
+      rcases he with he | he
+      · subst he; exact h _ (by simp)
+      · exact ih (fun e' he' => h e' (by simp [he'])) e (by simpa [List.mem_cons] using he)
+
+theorem scanLines_ne (fi : Nat) (lines : List Str) (st : List (List Str)) (h : AllNE st) : AllNE (scanLines fi lines st).1 := by
+  induction lines generalizing st with
+  | nil => simpa [scanLines] using h
+  | cons l rest ih =>
+    unfold scanLines
+    split
+    · exact ih _ (AllNE_append h (by intro e he; simp at he; subst he; simp))
+    · split
+      · exact h
+      · exact ih _ (appendLast_ne st l h)
+
+theorem setNs_args_ne (isArg : Bool) (s : ScanSt) (v : List (List Str)) (hs : AllNE s.args) (hv : AllNE v) : AllNE (setNs isArg s v).args := by
+  unfold setNs
+  split
+  · exact hv
+  · exact hs
+
+theorem atBreak_ne (style : GNStyle) (isArg : Bool) (st : List (List Str)) (rest : List Str) (h : AllNE st) :
+    AllNE (atBreak style isArg st rest).args ∧ (atBreak style isArg st rest).stacker = [] := by
+  have h0 : AllNE (setNs isArg {} st).args := setNs_args_ne isArg {} st AllNE_nil h
+  have h1 : (setNs isArg {} st).stacker = [] := by unfold setNs; split <;> rfl
+  unfold atBreak
+  simp only
+  split
+  · exact ⟨h0, h1⟩
+  · exact ⟨h0, h1⟩
+
+theorem returnStep1_ne (style : GNStyle) (s : ScanSt) (ha : AllNE s.args) (hs : AllNE s.stacker) :
+    AllNE (returnStep1 style s).args ∧ AllNE (returnStep1 style s).stacker := by
+  unfold returnStep1
+  split
+  · exact ⟨ha, AllNE_take _ hs⟩
+  · exact ⟨ha, hs⟩
+
+theorem returnStep2_ne (style : GNStyle) (s s' : ScanSt) (h : returnStep2 style s = .ok s') : s'.args = s.args ∧ s'.stacker = s.stacker := by
+  unfold returnStep2 at h
+  split at h
+  · split at h
+    · cases h; exact ⟨rfl, rfl⟩
+    · split at h
+      · cases h
+      · cases h; exact ⟨rfl, rfl⟩
+  · cases h; exact ⟨rfl, rfl⟩
+
+theorem returnPhase_ne (style : GNStyle) (s s' : ScanSt) (h : returnPhase style s = .ok s') (ha : AllNE s.args) (hs : AllNE s.stacker) :
+    AllNE s'.args ∧ AllNE s'.stacker := by
+  unfold returnPhase at h
+  obtain ⟨e1, e2⟩ := returnStep2_ne style _ s' h
+  rw [e1, e2]
+  exact returnStep1_ne style s ha hs
+
+theorem afterLoop_ne (style : GNStyle) (isArg : Bool) (lines : List Str) :
+    AllNE (afterLoop style isArg lines).1.args ∧ AllNE (afterLoop style isArg lines).1.stacker := by
+  unfold afterLoop
+  generalize hsl : scanLines _ lines [] = sl
+  have hst : AllNE sl.1 := by rw [← hsl]; exact scanLines_ne _ lines [] AllNE_nil
+  obtain ⟨stacker, brk⟩ := sl
+  cases brk with
+  | none => exact ⟨AllNE_nil, hst⟩
+  | some lr =>
+    obtain ⟨l, rest⟩ := lr
+    have := atBreak_ne style isArg stacker rest hst
+    simp only
+    exact ⟨this.1, by rw [this.2]; exact AllNE_nil⟩
+
+theorem copyLastLine_ne (s : ScanSt) (o : Option Str) : (copyLastLine s o).args = s.args ∧ (copyLastLine s o).stacker = s.stacker := by
+  cases o with
+  | none => exact ⟨rfl, rfl⟩
+  | some line =>
+    unfold copyLastLine
+    simp only
+    split <;> (try split) <;> exact ⟨rfl, rfl⟩
+
+theorem finishScan_ne (style : GNStyle) (isArg : Bool) (doc : Str) (s : ScanSt) (sc : Scanned)
+    (h : finishScan style isArg doc s = .ok sc) (ha : AllNE s.args) (hs : AllNE s.stacker) : AllNE sc.args := by
+  unfold finishScan at h
+  split at h
+  · cases h
+  · cases h
+  · rename_i s1 h1
+    have h2 : AllNE s1.args ∧ AllNE s1.stacker := by
+      split at h1
+      · exact returnPhase_ne style s s1 h1 ha hs
+      · cases h1; exact ⟨ha, hs⟩
+    cases h
+    simp only
+    split
+    · exact h2.1
+    · exact setNs_args_ne isArg s1 s1.stacker h2.1 h2.2
+
+/-- **the scanner never builds an empty unit**: `elem[0]` / `scan[0]` in the parse phase cannot raise `IndexError`
+    (the model's `headD []` in `isAfterwardHead` is therefore never applied to an empty unit) -/
+theorem scanPhase_args_ne (style : GNStyle) (text : Str) (sc : Scanned) (h : scanPhase style text = .ok sc) : AllNE sc.args := by
+  unfold scanPhase at h
+  split at h
+  · cases h; exact AllNE_nil
+  · rename_i st en isArg _
+    simp only at h
+    have hal := afterLoop_ne style isArg (splitlines (text.drop (en + 1)))
+    have hc := copyLastLine_ne (afterLoop style isArg (splitlines (text.drop (en + 1)))).1 (afterLoop style isArg (splitlines (text.drop (en + 1)))).2
+    exact finishScan_ne style isArg _ _ sc h (by rw [hc.1]; exact hal.1) (by rw [hc.2]; exact hal.2)
+
 end DocGN
